@@ -143,7 +143,8 @@ def check_one(dc, st, raw, r, maxaff):
 
 
 def check_decl(dc, st, tier, only=None):
-    maxaff = 1 if tier == 'quick' else 2
+    # two-byte prefixes and suffixes (1849 combinations per accepted input) for the single-component declarations of the thorough tier only
+    maxaff = 2 if (tier == 'thorough' and len(dc.spec.get('names', ())) == 1) else 1
     if only is not None:
         dc.syms, dc.L = alphabet.input_set(dc.P, dc.seed, 300)
         check_one(dc, st, only['raw'], ea.ref_parse(dc.P, only['raw']), 2)
